@@ -91,7 +91,7 @@ def r2(cx):
     cx.floor("C17.R2", "wire structs", nstruct, 10)
 
 
-def r3(cx):
+def r3(cx, rule="C17.R3"):
     ser = cx.mir.one("varlink", "<StringHashSet as _::_serde::Serialize>::serialize")
     cx.saw(ser)
     du = DefUse(ser); sl = Slice(ser, du); cfg = Cfg(ser)
@@ -116,13 +116,13 @@ def r3(cx):
         # nothing mutates the object map before use
         ins = [t for t in ser.calls("=insert") if "serde_json" in t.callee.path]
         if ins: why.append("the value object is filled before use")
-    cx.check(not why, "C17.R3", "varlink:StringHashSet:serialize-shape", ser.sp, "; ".join(why), note_ok="map{len} of element -> {} ; end")
+    cx.check(not why, rule, "varlink:StringHashSet:serialize-shape", ser.sp, "; ".join(why), note_ok="map{len} of element -> {} ; end")
     de = cx.mir.one("varlink", "<impl _::_serde::Deserialize<'de> for StringHashSet>::deserialize", exact=False) if False else None
     cands = [b for b in cx.mir.bodies("varlink") if b.promoted is None and b.path.endswith("::deserialize") and "StringHashSet" in (b.impl_self or b.path)]
     if len(cands) != 1: raise AnchorMissing("StringHashSet::deserialize: %d candidates" % len(cands))
     de = cands[0]; cx.saw(de)
     dm = [t for t in de.calls() if not t.callee.indirect and t.callee.name.startswith("deserialize_")]
-    cx.check([t.callee.name for t in dm] == ["deserialize_map"], "C17.R3", "varlink:StringHashSet:deserialize-kind", de.sp,
+    cx.check([t.callee.name for t in dm] == ["deserialize_map"], rule, "varlink:StringHashSet:deserialize-kind", de.sp,
              "deserialize does not ask for a map (%s): serialised form and accepted form differ" % [t.callee.name for t in dm], note_ok="deserialize_map")
     # the visitor inserts every key it read
     vm = [b for b in cx.mir.bodies("varlink") if b.promoted is None and b.path.endswith("::visit_map") and not (b.mac and "derive" in b.mac)]
@@ -130,4 +130,4 @@ def r3(cx):
         cfg = Cfg(b); du2 = DefUse(b); sl2 = Slice(b, du2)
         ins = b.calls("=insert"); K = [t for t in b.calls() if t.callee.name.startswith("next_key")]
         good = len(ins) == 1 and bool(K) and any(k == "call" and o in K for k, o in sl2.origins(ins[0].args[1])) and ins[0].bb in cfg.reach(ins[0].target)
-        cx.check(good, "C17.R3", "varlink:StringHashSet:visit_map-inserts-keys", b.sp, "visit_map does not insert each key it reads into the set", note_ok="values.insert(key) in the key loop")
+        cx.check(good, rule, "varlink:StringHashSet:visit_map-inserts-keys", b.sp, "visit_map does not insert each key it reads into the set", note_ok="values.insert(key) in the key loop")
